@@ -276,7 +276,17 @@ def judge_processor(paths: List[Path], site: Site, kind: str, j: Judged, loop_ok
         for d in deltas:
             reg = reg or region(p, d)
         if reg is None:
-            j.u(f"a decode path of an extensible item leaves the cursor alone under {p.guard_text()}, not conditioned on target vs cursor")
+            # does the path compare anything that depends on the prefix it read?
+            aa = single_atom(ahead_atoms[0]) if ahead_atoms else None
+            looks = False
+            for k_, _t in p.guards:
+                for x in k_[1:]:
+                    if hasattr(x, "terms") and aa is not None and aa in _all_atoms(x):
+                        looks = True
+            if not looks and jump_paths:
+                j.v("skip-bypass", f"a decode path of an extensible item returns without ever comparing the sender's size with the cursor (path under {p.guard_text()}): on it the bits a newer sender appended are never skipped", construct=" and ".join(p.guard_text()), witness="sender uint8[5]', receiver uint8[3]' followed by another field: the next field decodes from the sender's extra elements")
+            else:
+                j.u(f"a decode path of an extensible item leaves the cursor alone under {p.guard_text()}, not conditioned on target vs cursor")
         elif "gt" in reg:
             j.v("skip-cond", f"the guard on the jump lets a forward move (target > cursor) fall through without jumping (path under {p.guard_text()})", construct=" and ".join(p.guard_text()), witness="an extended sender: the receiver does not skip the extra bits")
     # target
